@@ -651,6 +651,7 @@ def c20(inp, rep):
                         rep.violate("%s|%s|exception-escaped" % (sc["planner"], target), "the injected Python exception propagated out of the planner call instead of being treated as False", det)
                         continue
                     except Exception as e:  # noqa: BLE001
+                        PENDING["det"] = None
                         rep.errors.append("fault run failed for %s: %r" % (sc["id"], e))
                         continue
                     PENDING["det"] = None
@@ -727,8 +728,10 @@ def main():
         os.dup2(_real_stderr, 2)
         traceback.print_exc()
         rep.errors.append("driver crashed: %r" % (e,))
+        PENDING["det"] = None
         rep.dump(out_path)
         sys.exit(3)
+    PENDING["det"] = None  # (the run is over: whatever ends the process now is not a planner call)
     rep.dump(out_path)
 
 
